@@ -15,7 +15,7 @@ AWAIT_KINDS = ["coro", "typescoro", "await_wrapper", "await_gen", "agen_asend", 
 # link kinds of a plain-generator chain
 GEN_KINDS = ["yield_from", "yield_from_iterwrap"]
 TERMINALS = ["trap", "iter_leaf"]
-ROOTS = ["coroutine", "generator", "async_generator"]
+ROOTS = ["coroutine", "generator", "async_generator", "async_generator_thrown"]
 
 
 class Probe(Exception):
@@ -211,6 +211,30 @@ def build(root: str, kinds: List[str], terminal: str, pre: bool) -> Tuple[Any, A
         x = reg.own(top())
         x.send(None)
         return x, x, reg
+
+    if root == "async_generator_thrown":
+        # An async generator that reaches its inner await because an exception was THROWN into a fresh asend()
+        # awaitable (a retry loop): on CPython the generator is then suspended at an await although ag_running is False.
+        class Retry(Exception):
+            pass
+
+        async def topgen_t() -> Any:
+            try:
+                yield 0
+            except Retry:
+                pass
+            await make_awaitable(kinds, terminal, reg, pre)()
+            yield 1
+
+        x = reg.own(topgen_t())
+        first = x.asend(None)
+        try:
+            first.send(None)
+        except StopIteration:
+            pass
+        aw = x.asend(None)
+        aw.throw(Retry())
+        return x, aw, reg
 
     async def topgen() -> Any:
         await make_awaitable(kinds, terminal, reg, pre)()
